@@ -5,28 +5,16 @@ package main
 import (
 	"fmt"
 	"go/ast"
-	"go/constant"
 	"go/token"
 	"go/types"
 	"sort"
 	"strings"
 
-	"golang.org/x/tools/go/ssa"
 )
 
 func init() { register("C16", true, checkC16) }
 
 const goshpPath = "github.com/jonas-p/go-shp"
-
-// geom type name → (shape type constant, concrete go-shp shape type, geom type read back)
-var shpRows = map[string][3]string{
-	"Point":           {"POINT", "Point", "Point"},
-	"LineString":      {"POLYLINE", "PolyLine", "MultiLineString"},
-	"MultiLineString": {"POLYLINE", "PolyLine", "MultiLineString"},
-	"Polygon":         {"POLYGON", "Polygon", "Polygon"},
-	"Bounds":          {"POLYGON", "Polygon", "Polygon"},
-	"MultiPoint":      {"MULTIPOINT", "MultiPoint", "MultiPoint"},
-}
 
 type c16 struct {
 	c    *Ctx
@@ -35,218 +23,32 @@ type c16 struct {
 }
 
 func checkC16(c *Ctx) {
-	c.Rule("C16.R1", "for each supported geom type the shape type NewEncoder selects from the field's type name, the concrete go-shp shape geom2Shp builds and the geom type shp2Geom rebuilds from that shape are consistent (Point↔POINT↔*shp.Point↔Point, (Multi)LineString↔POLYLINE↔*shp.PolyLine↔MultiLineString, Polygon/*Bounds↔POLYGON↔*shp.Polygon↔Polygon, MultiPoint↔MULTIPOINT↔*shp.MultiPoint↔MultiPoint)")
-	c.Rule("C16.R2", "every geometry copy loop in both directions is an identity index map over the full part range (dst[j-start] = src[j] for start ≤ j < end, whatever the loop direction); part i runs from parts[i] to parts[i+1], the last one to len(points)")
-	c.Rule("C16.R3", "a ring is closed by appending its first vertex exactly when it is non-empty and first ≠ last")
-	c.Rule("C16.R6", "the attribute-row counter advances with the shape cursor: in each decoding method, every return reached with a record and no recorded error has incremented the row counter exactly once")
-	c.Rule("C16.R5", "attribute columns are matched case-insensitively and by tag or name: the decoder's column index is keyed by lower-cased column names, every lookup key is lower-cased, and DecodeRow looks each struct field up once by its tag and once, independently of the tag, by its Go name, handing the column it found to the attribute setter")
-	c.Rule("C16.R4", "encoder kind→field table and decoder kind→parser table cover the same kinds {int, float64, string}; field widths satisfy the documented guarantees (string ≥ 50, float precision ≥ 10, float width ≥ sign+17 digits+point+precision, int width ≥ 10)")
+	c.Rule("C16.R1", "model evaluation at the go-shp boundary: for each supported geometry type (Point, MultiPoint, LineString, MultiLineString, Polygon, *Bounds) NewEncoder given a record struct with a field of that type creates a file whose shape type matches the concrete go-shp shape geom2Shp then writes into it (go-shp reads every record back as the file's type), and DecodeRow hands back the expected geom type (line strings as one-part MultiLineStrings, boxes as Polygons), storable in a geom.Geom field")
+	c.Rule("C16.R2", "model evaluation: geometries with 1–6 parts of 0–7 vertices (empty parts in the middle included) written through Encode / EncodeFields and read back through DecodeRow / DecodeRowFields come back part by part with the same vertices in the same order; the part and point counts a written shape declares agree with the slices it carries")
+	c.Rule("C16.R3", "model evaluation: a polygon ring comes back closed by a repetition of its first vertex exactly when it was non-empty and first ≠ last, unchanged otherwise; a box comes back as a closed five-vertex rectangle through its four corners")
+	c.Rule("C16.R6", "the attribute-row counter advances with the shape cursor: in each decoding method, every return reached with a record and no recorded error has incremented the row counter exactly once; model evaluation: three records written through either encoder come back in order, each with its own geometry and attributes, followed by end of file and a nil Error()")
+	c.Rule("C16.R5", "attribute columns are matched case-insensitively and by tag or name: the decoder's column index is keyed by lower-cased column names, every lookup key is lower-cased, and DecodeRow looks each struct field up once by its tag and once, independently of the tag, by its Go name, handing the column it found to the attribute setter; model evaluation: a record struct whose tags and names differ in case from the column names, with a tag that names no column and a field that matches none, is filled exactly as documented")
+	c.Rule("C16.R4", "model evaluation: int, float64 and string struct fields become number, float and character columns whose widths satisfy the documented guarantees (string ≥ 50, float precision ≥ 10, float width ≥ sign+17 digits+point+precision, int width ≥ 10); an int, a float and a string of up to 50 bytes written at (row, column) come back equal through DecodeRow and DecodeRowFields from NUL-padded column text")
 	p := c.P.Pkg("encoding/shp")
 	if p == nil {
 		c.Unk("C16.R1", "encoding/shp", token.NoPos, "package not loaded")
 		return
 	}
 	a := &c16{c: c, info: p.TypesInfo, p: p}
-	a.tables()
-	a.indexMaps()
-	a.closing()
-	a.attributes()
+	c16model(c, p)
 	a.matching()
 	a.rowCursor()
 	c.Floor("C16.R6", 2)
 	c.Floor("C16.R5", 4)
 	c.Floor("C16.R1", 6)
-	c.Floor("C16.R2", 8)
+	c.Floor("C16.R2", 6)
 	c.Floor("C16.R3", 1)
-	c.Floor("C16.R4", 5)
+	c.Floor("C16.R4", 4)
 }
 
 func (a *c16) fn(name string) (*types.Func, *ast.FuncDecl) {
 	f := a.c.P.Func("encoding/shp", name)
 	return f, a.c.P.Decl(f)
-}
-
-// concreteReturns: the dynamic types a function returns through its interface result.
-func (a *c16) concreteReturns(f *types.Func) []string {
-	sf := a.c.P.SSAFunc(f)
-	set := map[string]bool{}
-	if sf == nil {
-		return nil
-	}
-	for _, b := range sf.Blocks {
-		for _, in := range b.Instrs {
-			r, ok := in.(*ssa.Return)
-			if !ok || len(r.Results) == 0 {
-				continue
-			}
-			switch v := r.Results[0].(type) {
-			case *ssa.MakeInterface:
-				set[qualTypeName(v.X.Type())] = true
-			case *ssa.Const:
-			default:
-				set["?"+v.Type().String()] = true
-			}
-		}
-	}
-	var out []string
-	for k := range set {
-		out = append(out, k)
-	}
-	sort.Strings(out)
-	return out
-}
-
-func (a *c16) tables() {
-	c := a.c
-	// (1) NewEncoder: switch on Type.Name()
-	_, nfd := a.fn("NewEncoder")
-	g2s, gfd := a.fn("geom2Shp")
-	s2g, sfd := a.fn("shp2Geom")
-	if nfd == nil || gfd == nil || sfd == nil {
-		c.Unk("C16.R1", "encoding/shp#anchors", token.NoPos, "NewEncoder / geom2Shp / shp2Geom do not resolve")
-		return
-	}
-	_ = g2s
-	_ = s2g
-	encType := map[string]string{} // type name → shape const name
-	ast.Inspect(nfd.Body, func(n ast.Node) bool {
-		switch x := n.(type) {
-		case *ast.CaseClause:
-			for _, e := range x.List {
-				name, ok := constString(a.info, e)
-				if !ok {
-					continue
-				}
-				for _, s := range x.Body {
-					if as, ok := s.(*ast.AssignStmt); ok && len(as.Rhs) == 1 {
-						if cst, ok := objOf(a.info, selOrIdent(as.Rhs[0])).(*types.Const); ok && cst.Pkg() != nil && cst.Pkg().Path() == goshpPath {
-							encType[name] = cst.Name()
-						}
-					}
-				}
-			}
-		case *ast.IfStmt:
-			// if sField.Type.Elem().Name() == "Bounds" { shpType = shp.POLYGON }
-			if b, ok := unparen(x.Cond).(*ast.BinaryExpr); ok && b.Op == token.EQL {
-				if name, ok := constString(a.info, b.Y); ok {
-					for _, s := range x.Body.List {
-						if as, ok := s.(*ast.AssignStmt); ok && len(as.Rhs) == 1 {
-							if cst, ok := objOf(a.info, selOrIdent(as.Rhs[0])).(*types.Const); ok && cst.Pkg() != nil && cst.Pkg().Path() == goshpPath {
-								encType[name] = cst.Name()
-							}
-						}
-					}
-				}
-			}
-		}
-		return true
-	})
-	// (2) geom2Shp: type switch T → builder call → concrete shape
-	builtShape := map[string][]string{}
-	ast.Inspect(gfd.Body, func(n ast.Node) bool {
-		sw, ok := n.(*ast.TypeSwitchStmt)
-		if !ok {
-			return true
-		}
-		_, cls := typeSwitch(a.info, sw)
-		for _, cl := range cls {
-			for _, t := range cl.Types {
-				if t == nil {
-					continue
-				}
-				tn := geomTypeName(t)
-				if pt, ok := t.(*types.Pointer); ok {
-					tn = geomTypeName(pt.Elem())
-				}
-				if tn == "" {
-					continue
-				}
-				ast.Inspect(&ast.BlockStmt{List: cl.Clause.Body}, func(m ast.Node) bool {
-					if r, ok := m.(*ast.ReturnStmt); ok && len(r.Results) == 2 {
-						if call, ok := unparen(r.Results[0]).(*ast.CallExpr); ok {
-							if f := callee(a.info, call); f != nil && c.P.Decl(f) != nil {
-								builtShape[tn] = a.concreteReturns(f)
-							}
-						}
-					}
-					return true
-				})
-			}
-		}
-		return true
-	})
-	// (3) shp2Geom: case t == reflect.TypeOf(&shp.X{}) → returns f(...) → concrete geom type
-	readBack := map[string][]string{}
-	ast.Inspect(sfd.Body, func(n ast.Node) bool {
-		cc, ok := n.(*ast.CaseClause)
-		if !ok {
-			return true
-		}
-		for _, e := range cc.List {
-			b, ok := unparen(e).(*ast.BinaryExpr)
-			if !ok || b.Op != token.EQL {
-				continue
-			}
-			call, ok := unparen(b.Y).(*ast.CallExpr)
-			if !ok || !isFuncIn(callee(a.info, call), "reflect", "TypeOf") || len(call.Args) != 1 {
-				continue
-			}
-			shapeT := qualTypeName(a.info.TypeOf(call.Args[0]))
-			for _, s := range cc.Body {
-				if r, ok := s.(*ast.ReturnStmt); ok && len(r.Results) == 3 {
-					if inner, ok := unparen(r.Results[1]).(*ast.CallExpr); ok {
-						if f := callee(a.info, inner); f != nil && c.P.Decl(f) != nil {
-							readBack[shapeT] = a.concreteReturns(f)
-							// the asserted type must be the case's type
-							ast.Inspect(inner, func(m ast.Node) bool {
-								if ta, ok := m.(*ast.TypeAssertExpr); ok && ta.Type != nil {
-									if got := qualTypeName(a.info.TypeOf(ta.Type)); got != shapeT {
-										readBack[shapeT] = []string{"assert:" + got}
-									}
-								}
-								return true
-							})
-						}
-					}
-				}
-			}
-		}
-		return true
-	})
-	var names []string
-	for tn := range shpRows {
-		names = append(names, tn)
-	}
-	sort.Strings(names)
-	for _, tn := range names {
-		row := shpRows[tn]
-		cons := "encoding/shp#row(" + tn + ")"
-		wantShape := "*shp." + row[1]
-		wantBack := "geom." + row[2]
-		var problems []string
-		if got := encType[tn]; got != row[0] {
-			problems = append(problems, fmt.Sprintf("NewEncoder creates a %q shapefile for a %s field, want %s", got, tn, row[0]))
-		}
-		if got := builtShape[tn]; len(got) != 1 || got[0] != wantShape {
-			problems = append(problems, fmt.Sprintf("geom2Shp builds %v for a %s, want %s", got, tn, wantShape))
-		}
-		if got := readBack[wantShape]; len(got) != 1 || got[0] != wantBack {
-			problems = append(problems, fmt.Sprintf("shp2Geom turns %s into %v, want %s", wantShape, got, wantBack))
-		}
-		if len(problems) == 0 {
-			c.OK("C16.R1", cons, nfd.Pos(), "%s ↔ %s ↔ %s ↔ %s", tn, row[0], wantShape, wantBack)
-		} else {
-			c.Bad("C16.R1", cons, nfd.Pos(), "%s", strings.Join(problems, "; "))
-		}
-	}
-	// shape-type constants must exist in go-shp with the expected concrete types
-	if dep := c.P.Dep(goshpPath); dep != nil {
-		for _, row := range shpRows {
-			if dep.Types.Scope().Lookup(row[0]) == nil || dep.Types.Scope().Lookup(row[1]) == nil {
-				c.Unk("C16.R1", "go-shp#"+row[0], token.NoPos, "shape type %s / type %s not found in the dependency", row[0], row[1])
-			}
-		}
-	}
 }
 
 func selOrIdent(e ast.Expr) ast.Expr {
@@ -259,133 +61,6 @@ func selOrIdent(e ast.Expr) ast.Expr {
 
 // ---------------------------------------------------------------- R2
 
-func (a *c16) indexMaps() {
-	c := a.c
-	// getStartEnd-like helper: (parts, points, i) → (start, end)
-	var bounds *types.Func
-	for _, fn := range c.P.RepoFuncs() {
-		if c.P.DeclPkg(fn) != a.p {
-			continue
-		}
-		sig := fn.Type().(*types.Signature)
-		if sig.Recv() == nil && sig.Params().Len() == 3 && sig.Results().Len() == 2 && !sig.Variadic() {
-			isInt := func(t types.Type) bool {
-				b, ok := t.Underlying().(*types.Basic)
-				return ok && b.Kind() == types.Int
-			}
-			if isInt(sig.Results().At(0).Type()) && isInt(sig.Results().At(1).Type()) && isInt(sig.Params().At(2).Type()) {
-				bounds = fn
-			}
-		}
-	}
-	if bounds != nil {
-		fd := c.P.Decl(bounds)
-		ps := paramVars(a.info, fd.Type)
-		rs := resultVars(a.info, fd.Type)
-		msg := ""
-		if len(ps) != 3 || len(rs) != 2 || rs[0] == nil || rs[1] == nil {
-			msg = "shape not recognised (named results start, end expected)"
-		} else {
-			parts, points, i := ps[0], ps[1], ps[2]
-			okStart, okEndLast, okEndNext := false, false, false
-			ast.Inspect(fd.Body, func(n ast.Node) bool {
-				as, ok := n.(*ast.AssignStmt)
-				if !ok || len(as.Lhs) != 1 || len(as.Rhs) != 1 {
-					return true
-				}
-				rhs := stripIntConv(a.info, as.Rhs[0])
-				switch objOf(a.info, as.Lhs[0]) {
-				case rs[0]:
-					if ix, ok := rhs.(*ast.IndexExpr); ok && objOf(a.info, ix.X) == parts && objOf(a.info, ix.Index) == i {
-						okStart = true
-					}
-				case rs[1]:
-					// under i == len(parts)-1: len(points); else parts[i+1]
-					guardLast := false
-					inElse := false
-					for _, anc := range enclosing(fd.Body, as) {
-						if is, ok := anc.(*ast.IfStmt); ok {
-							if b, ok := unparen(is.Cond).(*ast.BinaryExpr); ok && b.Op == token.EQL && objOf(a.info, b.X) == i {
-								sc := newFnScope(a.info, fd.Body)
-								af := sc.aff(b.Y)
-								if af.ok && af.K == -1 && af.Of != nil && objOf(a.info, af.Of) == parts {
-									guardLast = true
-									inElse = !containsNode(is.Body, as)
-								}
-							}
-						}
-					}
-					if la := lenArg(a.info, rhs); la != nil && objOf(a.info, la) == points && guardLast && !inElse {
-						okEndLast = true
-					}
-					if ix, ok := rhs.(*ast.IndexExpr); ok && objOf(a.info, ix.X) == parts && guardLast && inElse {
-						sc := newFnScope(a.info, fd.Body)
-						if off, ok := sc.idxOffset(ix.Index, i); ok && off == 1 {
-							okEndNext = true
-						}
-					}
-				}
-				return true
-			})
-			if !(okStart && okEndLast && okEndNext) {
-				msg = fmt.Sprintf("part boundaries are not parts[i] .. parts[i+1] (len(points) for the last part): start ok=%v, last-part end ok=%v, next-part end ok=%v", okStart, okEndLast, okEndNext)
-			}
-		}
-		if msg == "" {
-			c.OK("C16.R2", c.P.FuncName(bounds), fd.Pos(), "part i = [parts[i], parts[i+1]) and [parts[last], len(points))")
-		} else {
-			c.Bad("C16.R2", c.P.FuncName(bounds), fd.Pos(), "%s", msg)
-		}
-	} else {
-		c.Unk("C16.R2", "encoding/shp#part-bounds", token.NoPos, "part boundary helper not found")
-	}
-	// converter functions: every function whose name contains "2geom"/"geom2" is discovered by type:
-	// param is a go-shp shape or geom type, result is the other side.
-	for _, fn := range c.P.RepoFuncs() {
-		if c.P.DeclPkg(fn) != a.p || fn == bounds {
-			continue
-		}
-		fd := c.P.Decl(fn)
-		sig := fn.Type().(*types.Signature)
-		if sig.Recv() != nil || sig.Params().Len() != 1 || sig.Results().Len() != 1 {
-			continue
-		}
-		// converters: result is the geom.Geom or shp.Shape interface
-		rt := sig.Results().At(0).Type()
-		if !(isNamed(rt, modPath, "Geom") || isNamed(rt, goshpPath, "Shape")) {
-			continue
-		}
-		// only functions containing loops with indexed stores
-		hasLoopStore := false
-		ast.Inspect(fd.Body, func(n ast.Node) bool {
-			switch n.(type) {
-			case *ast.ForStmt, *ast.RangeStmt:
-				ast.Inspect(n, func(m ast.Node) bool {
-					if as, ok := m.(*ast.AssignStmt); ok {
-						for _, l := range as.Lhs {
-							if _, ok := unparen(l).(*ast.IndexExpr); ok {
-								hasLoopStore = true
-							}
-						}
-					}
-					return true
-				})
-			}
-			return true
-		})
-		if !hasLoopStore {
-			continue
-		}
-		name := c.P.FuncName(fn)
-		msg := a.copyShape(fd, bounds)
-		if msg == "" {
-			c.OK("C16.R2", name, fd.Pos(), "identity index map over every part and vertex")
-		} else {
-			c.Bad("C16.R2", name, fd.Pos(), "%s", msg)
-		}
-	}
-}
-
 func stripIntConv(info *types.Info, e ast.Expr) ast.Expr {
 	e = unparen(e)
 	if call, ok := e.(*ast.CallExpr); ok && len(call.Args) == 1 {
@@ -394,182 +69,6 @@ func stripIntConv(info *types.Info, e ast.Expr) ast.Expr {
 		}
 	}
 	return e
-}
-
-// copyShape checks the loops of one converter.  Two loop families are accepted:
-// affine full-range loops (range / 0..len) with dst[i] (or dst[i][j]) = f(src[i](…[j])),
-// and part loops `for j in [start,end)` (either direction) with dst[i][j-start] = f(src.Points[j]).
-func (a *c16) copyShape(fd *ast.FuncDecl, bounds *types.Func) string {
-	info := a.info
-	sc := newFnScope(info, fd.Body)
-	msg := ""
-	set := func(s string) {
-		if msg == "" {
-			msg = s
-		}
-	}
-	stores := 0
-	var walk func(n ast.Node, loops []*Loop, part *partLoop)
-	walk = func(n ast.Node, loops []*Loop, part *partLoop) {
-		switch x := n.(type) {
-		case nil:
-			return
-		case *ast.BlockStmt:
-			for _, s := range x.List {
-				walk(s, loops, part)
-			}
-		case *ast.IfStmt:
-			walk(x.Body, loops, part)
-			walk(x.Else, loops, part)
-		case *ast.ForStmt, *ast.RangeStmt:
-			st := n.(ast.Stmt)
-			var body *ast.BlockStmt
-			if rs, ok := st.(*ast.RangeStmt); ok {
-				body = rs.Body
-			} else {
-				body = st.(*ast.ForStmt).Body
-			}
-			brk, cont, _ := earlyExits(body)
-			if len(brk)+len(cont) > 0 {
-				set("copy loop has break/continue")
-			}
-			if l := sc.loopOf(st); l != nil {
-				if !(l.Lo.ok && l.Lo.Of == nil && l.Lo.K == 0 && l.Hi.ok && l.Hi.K == 0 && l.Hi.Of != nil) {
-					set("loop " + l.String() + " does not cover its whole collection")
-				}
-				walk(body, append(loops, l), part)
-				return
-			}
-			if fs, ok := st.(*ast.ForStmt); ok {
-				if pl := a.partLoopOf(fs, sc, bounds, fd); pl != nil {
-					walk(body, loops, pl)
-					return
-				}
-			}
-			set("loop `" + src(st)[:min(60, len(src(st)))] + "…` is neither a full-range loop nor a [start,end) part loop")
-		case *ast.AssignStmt:
-			for i, lh := range x.Lhs {
-				ix, ok := unparen(lh).(*ast.IndexExpr)
-				if !ok {
-					continue
-				}
-				if _, isSlice := info.TypeOf(ix.X).Underlying().(*types.Slice); !isSlice {
-					continue
-				}
-				rhs := x.Rhs[min(i, len(x.Rhs)-1)]
-				if call, ok := unparen(rhs).(*ast.CallExpr); ok && builtinName(info, call) == "make" {
-					// inner allocation: len(elem) or end-start
-					if len(call.Args) >= 2 {
-						if b, ok := unparen(call.Args[1]).(*ast.BinaryExpr); ok && b.Op == token.SUB {
-							if !a.isStartEnd(fd, bounds, b.Y, 0) || !a.isStartEnd(fd, bounds, b.X, 1) {
-								set("part allocated with length `" + src(call.Args[1]) + "`, want end-start")
-							}
-						} else {
-							af := sc.aff(call.Args[1])
-							if !(af.ok && af.K == 0 && af.Of != nil) {
-								set("member allocated with length `" + src(call.Args[1]) + "`")
-							}
-						}
-					}
-					// index must be the outer loop index
-					if len(loops) == 0 {
-						set("allocation outside a loop")
-					} else if off, ok := sc.idxOffset(ix.Index, loops[len(loops)-1].Idx); !ok || off != 0 {
-						set("member stored at `" + src(ix.Index) + "`, not at the loop index")
-					}
-					continue
-				}
-				if call, ok := unparen(rhs).(*ast.CallExpr); ok && builtinName(info, call) == "append" {
-					continue // ring closing, checked by R3
-				}
-				if se, ok := unparen(rhs).(*ast.SliceExpr); ok {
-					if _, inner := info.TypeOf(lh).Underlying().(*types.Slice); inner {
-						// member carved out of a block allocation: block[lo:hi] with hi-lo = len(member);
-						// whether it may be appended to is R3's business
-						lo, hi := Aff{ok: true}, Aff{}
-						if se.Low != nil {
-							lo = sc.aff(se.Low)
-						}
-						if se.High != nil {
-							hi = sc.aff(se.High)
-						}
-						if lo.ok && hi.ok && lo.Of == nil && !(hi.Of != nil && hi.K-lo.K == 0) {
-							set("member `" + src(lh) + "` is the window `" + src(rhs) + "`, whose length is not that of the source member")
-						}
-						continue
-					}
-				}
-				stores++
-				if part != nil {
-					// dst[i][j-start] = f(src[j])
-					b, ok := unparen(ix.Index).(*ast.BinaryExpr)
-					if !ok || b.Op != token.SUB || objOf(info, b.X) != part.j || !a.isStartEnd(fd, bounds, b.Y, 0) {
-						set("vertex stored at `" + src(ix.Index) + "`, want j-start: vertex order within the part is not preserved")
-					}
-					if !mentionsIndexBy(info, rhs, part.j) {
-						// through a local: ss := s.Points[j]
-						okLocal := false
-						ast.Inspect(rhs, func(m ast.Node) bool {
-							if id, ok := m.(*ast.Ident); ok {
-								if o := objOf(info, id); o != nil {
-									for _, d := range sc.defs[o] {
-										if d != nil && mentionsIndexBy(info, d, part.j) {
-											okLocal = true
-										}
-									}
-								}
-							}
-							return true
-						})
-						if !okLocal {
-							set("stored vertex `" + src(rhs) + "` is not the source vertex at index j")
-						}
-					}
-					// outer index
-					if ox, ok := unparen(ix.X).(*ast.IndexExpr); ok && len(loops) > 0 {
-						if off, ok := sc.idxOffset(ox.Index, loops[len(loops)-1].Idx); !ok || off != 0 {
-							set("part stored at `" + src(ox.Index) + "`, not at the part index")
-						}
-					}
-					continue
-				}
-				// affine: every index of the chain is the index of an enclosing loop, in order
-				var idxs []ast.Expr
-				e := ast.Expr(ix)
-				for {
-					y, ok := unparen(e).(*ast.IndexExpr)
-					if !ok {
-						break
-					}
-					idxs = append([]ast.Expr{y.Index}, idxs...)
-					e = y.X
-				}
-				if len(idxs) > len(loops) {
-					set("store `" + src(lh) + "` is not inside loops over the corresponding levels")
-					continue
-				}
-				base := len(loops) - len(idxs)
-				for k, ie := range idxs {
-					if off, ok := sc.idxOffset(ie, loops[base+k].Idx); !ok || off != 0 {
-						set("store `" + src(lh) + "`: index `" + src(ie) + "` is not the loop index (vertex order not preserved)")
-					}
-				}
-				l := loops[len(loops)-1]
-				var srcColl types.Object
-				if l.Hi.Of != nil {
-					srcColl = rootObj(info, l.Hi.Of)
-				}
-				if !derivesFrom(info, sc, rhs, srcColl, l, 0) && !mentionsIndexBy(info, rhs, l.Idx) {
-					set("value stored by `" + src(x) + "` does not come from the element at the same index")
-				}
-			}
-		}
-	}
-	walk(fd.Body, nil, nil)
-	if stores == 0 && msg == "" {
-		return "no vertex store found"
-	}
-	return msg
 }
 
 func mentionsIndexBy(info *types.Info, e ast.Node, idx types.Object) bool {
@@ -583,308 +82,6 @@ func mentionsIndexBy(info *types.Info, e ast.Node, idx types.Object) bool {
 	return found
 }
 
-type partLoop struct {
-	j types.Object
-}
-
-// isStartEnd: e is the variable bound to result #which of the part-bounds helper.
-func (a *c16) isStartEnd(fd *ast.FuncDecl, bounds *types.Func, e ast.Expr, which int) bool {
-	o := objOf(a.info, e)
-	if o == nil || bounds == nil {
-		return false
-	}
-	ok := false
-	ast.Inspect(fd.Body, func(n ast.Node) bool {
-		as, isAs := n.(*ast.AssignStmt)
-		if !isAs || len(as.Lhs) != 2 || len(as.Rhs) != 1 {
-			return true
-		}
-		if call, isCall := unparen(as.Rhs[0]).(*ast.CallExpr); isCall && callee(a.info, call) == bounds {
-			if objOf(a.info, as.Lhs[which]) == o {
-				ok = true
-			}
-		}
-		return true
-	})
-	return ok
-}
-
-// partLoopOf recognises `for j := start; j < end; j++` and `for j := end-1; j >= start; j--`.
-func (a *c16) partLoopOf(fs *ast.ForStmt, sc *fnScope, bounds *types.Func, fd *ast.FuncDecl) *partLoop {
-	init, ok := fs.Init.(*ast.AssignStmt)
-	if !ok || len(init.Lhs) != 1 || len(init.Rhs) != 1 || fs.Cond == nil || fs.Post == nil {
-		return nil
-	}
-	j := objOf(a.info, init.Lhs[0])
-	cond, ok := unparen(fs.Cond).(*ast.BinaryExpr)
-	post, ok2 := fs.Post.(*ast.IncDecStmt)
-	if j == nil || !ok || !ok2 || objOf(a.info, cond.X) != j || objOf(a.info, post.X) != j || sc.writtenIn(j, fs.Body) {
-		return nil
-	}
-	if post.Tok == token.INC {
-		if a.isStartEnd(fd, bounds, init.Rhs[0], 0) && cond.Op == token.LSS && a.isStartEnd(fd, bounds, cond.Y, 1) {
-			return &partLoop{j}
-		}
-		return nil
-	}
-	// j := end-1; j >= start; j--
-	b, ok := unparen(init.Rhs[0]).(*ast.BinaryExpr)
-	if !ok || b.Op != token.SUB || !a.isStartEnd(fd, bounds, b.X, 1) {
-		return nil
-	}
-	if k, ok := constInt(a.info, b.Y); !ok || k != 1 {
-		return nil
-	}
-	if cond.Op == token.GEQ && a.isStartEnd(fd, bounds, cond.Y, 0) {
-		return &partLoop{j}
-	}
-	return nil
-}
-
-// ---------------------------------------------------------------- R3
-
-func (a *c16) closing() {
-	c := a.c
-	found := 0
-	for _, fn := range c.P.RepoFuncs() {
-		if c.P.DeclPkg(fn) != a.p {
-			continue
-		}
-		fd := c.P.Decl(fn)
-		sc := newFnScope(a.info, fd.Body)
-		ast.Inspect(fd.Body, func(n ast.Node) bool {
-			is, ok := n.(*ast.IfStmt)
-			if !ok || len(is.Body.List) != 1 {
-				return true
-			}
-			as, ok := is.Body.List[0].(*ast.AssignStmt)
-			if !ok || len(as.Rhs) != 1 {
-				return true
-			}
-			call, ok := unparen(as.Rhs[0]).(*ast.CallExpr)
-			if !ok || builtinName(a.info, call) != "append" || len(call.Args) != 2 || call.Ellipsis.IsValid() {
-				return true
-			}
-			// append(X, X[0])
-			elem, ok := unparen(call.Args[1]).(*ast.IndexExpr)
-			if !ok || !sameExpr(a.info, elem.X, call.Args[0]) || !sameExpr(a.info, as.Lhs[0], call.Args[0]) {
-				return true
-			}
-			if k, ok := constInt(a.info, elem.Index); !ok || k != 0 {
-				return true
-			}
-			found++
-			name := c.P.FuncName(fn) + "#ring-closing"
-			// condition: len(r) > 0 && first != last
-			atoms := conjuncts(is.Cond, true)
-			nonEmpty, neq := false, false
-			for _, at := range atoms {
-				e := unparen(at.E)
-				if b, ok := e.(*ast.BinaryExpr); ok && at.Truth {
-					if la := lenArg(a.info, b.X); la != nil {
-						k, kok := constInt(a.info, b.Y)
-						if kok && ((b.Op == token.GTR && k == 0) || (b.Op == token.GEQ && k == 1) || (b.Op == token.NEQ && k == 0)) {
-							nonEmpty = true
-						}
-					}
-					if b.Op == token.NEQ && a.firstLast(sc, b.X, b.Y) {
-						neq = true
-					}
-				}
-				if cl, ok := e.(*ast.CallExpr); ok && !at.Truth {
-					if sel, ok := unparen(cl.Fun).(*ast.SelectorExpr); ok && sel.Sel.Name == "Equals" && len(cl.Args) == 1 && a.firstLast(sc, sel.X, cl.Args[0]) {
-						neq = true
-					}
-				}
-			}
-			// the slice appended to must own its backing array: a window X = block[a:b] of a shared
-			// block has spare capacity that belongs to the next ring, and append writes into it
-			shared := ""
-			ast.Inspect(fd.Body, func(m ast.Node) bool {
-				as2, ok := m.(*ast.AssignStmt)
-				if !ok || as2 == as {
-					return true
-				}
-				for i, lh := range as2.Lhs {
-					if !sameExpr(a.info, lh, call.Args[0]) {
-						continue
-					}
-					rhs := as2.Rhs[min(i, len(as2.Rhs)-1)]
-					if se, ok := unparen(rhs).(*ast.SliceExpr); ok {
-						if !(se.Slice3 && se.Max != nil && se.High != nil && sameExpr(a.info, se.Max, se.High)) {
-							shared = src(as2)
-						}
-					}
-				}
-				return true
-			})
-			if shared != "" {
-				c.Bad("C16.R3", name, is.Pos(), "`%s` makes the ring a window of a larger block without limiting its capacity, so the closing `%s` writes the first vertex over the first vertex of the next ring instead of growing this one", shared, src(as))
-				return true
-			}
-			switch {
-			case !neq:
-				c.Bad("C16.R3", name, is.Pos(), "the first vertex is appended under `%s`, which is not 'first vertex ≠ last vertex': closed rings get a duplicate vertex or unclosed rings stay open", src(is.Cond))
-			case !nonEmpty:
-				c.Bad("C16.R3", name, is.Pos(), "the closing test indexes the ring without a non-empty guard: an empty ring panics")
-			default:
-				c.OK("C16.R3", name, is.Pos(), "closed exactly when non-empty and first ≠ last")
-			}
-			return true
-		})
-	}
-	if found == 0 {
-		c.Bad("C16.R3", "encoding/shp#ring-closing", token.NoPos, "no ring is closed on the way to the shapefile: unclosed rings are written as they are")
-	}
-}
-
-// firstLast: {x, y} = {r[0], r[len(r)-1]} of the same r.
-func (a *c16) firstLast(sc *fnScope, x, y ast.Expr) bool {
-	xi, ok1 := unparen(x).(*ast.IndexExpr)
-	yi, ok2 := unparen(y).(*ast.IndexExpr)
-	if !ok1 || !ok2 || !sameExpr(a.info, xi.X, yi.X) {
-		return false
-	}
-	ax, ay := sc.aff(xi.Index), sc.aff(yi.Index)
-	first := func(f Aff) bool { return f.ok && f.Of == nil && f.K == 0 }
-	last := func(f Aff) bool { return f.ok && f.Of != nil && f.K == -1 && sameExpr(a.info, f.Of, xi.X) }
-	return (first(ax) && last(ay)) || (last(ax) && first(ay))
-}
-
-// ---------------------------------------------------------------- R4
-
-func (a *c16) attributes() {
-	c := a.c
-	_, nfd := a.fn("NewEncoder")
-	if nfd == nil {
-		return
-	}
-	kindName := func(e ast.Expr) string {
-		if sel, ok := unparen(e).(*ast.SelectorExpr); ok {
-			if cst, ok := a.info.Uses[sel.Sel].(*types.Const); ok && cst.Pkg() != nil && cst.Pkg().Path() == "reflect" {
-				return cst.Name()
-			}
-		}
-		return ""
-	}
-	enc := map[string]string{}
-	widths := map[string][]int64{}
-	ast.Inspect(nfd.Body, func(n ast.Node) bool {
-		cc, ok := n.(*ast.CaseClause)
-		if !ok {
-			return true
-		}
-		for _, e := range cc.List {
-			k := kindName(e)
-			if k == "" {
-				continue
-			}
-			ast.Inspect(&ast.BlockStmt{List: cc.Body}, func(m ast.Node) bool {
-				if call, ok := m.(*ast.CallExpr); ok {
-					if f := callee(a.info, call); f != nil && f.Pkg() != nil && f.Pkg().Path() == goshpPath && strings.HasSuffix(f.Name(), "Field") {
-						enc[k] = f.Name()
-						for _, arg := range call.Args[1:] {
-							if v, ok := constInt(a.info, arg); ok {
-								widths[k] = append(widths[k], v)
-							}
-						}
-					}
-				}
-				return true
-			})
-		}
-		return true
-	})
-	want := map[string]string{"Int": "NumberField", "Float64": "FloatField", "String": "StringField"}
-	for k, w := range want {
-		cons := "encoding/shp.NewEncoder#field(" + k + ")"
-		if enc[k] == w {
-			c.OK("C16.R4", cons, nfd.Pos(), "%s → shp.%s%v", k, w, widths[k])
-		} else {
-			c.Bad("C16.R4", cons, nfd.Pos(), "a struct field of kind %s becomes shp.%s, want shp.%s", k, enc[k], w)
-		}
-	}
-	// widths
-	okW := func(cond bool, cons, good, bad string) {
-		if cond {
-			c.OK("C16.R4", cons, nfd.Pos(), "%s", good)
-		} else {
-			c.Bad("C16.R4", cons, nfd.Pos(), "%s", bad)
-		}
-	}
-	if w := widths["String"]; len(w) == 1 {
-		okW(w[0] >= 50 && w[0] <= 254, "encoding/shp.NewEncoder#width(String)", fmt.Sprintf("string width %d ≥ 50", w[0]), fmt.Sprintf("string width %d: strings up to 50 bytes would be truncated (or the dBase limit 254 is exceeded)", w[0]))
-	} else {
-		c.Unk("C16.R4", "encoding/shp.NewEncoder#width(String)", nfd.Pos(), "constant width not found")
-	}
-	if w := widths["Int"]; len(w) == 1 {
-		okW(w[0] >= 10, "encoding/shp.NewEncoder#width(Int)", fmt.Sprintf("integer width %d ≥ 10", w[0]), fmt.Sprintf("integer width %d < 10 digits", w[0]))
-	} else {
-		c.Unk("C16.R4", "encoding/shp.NewEncoder#width(Int)", nfd.Pos(), "constant width not found")
-	}
-	if w := widths["Float64"]; len(w) == 2 {
-		okW(w[1] >= 10 && w[0] >= 1+17+1+w[1], "encoding/shp.NewEncoder#width(Float64)", fmt.Sprintf("float width %d, precision %d", w[0], w[1]), fmt.Sprintf("float width %d / precision %d: need precision ≥ 10 and width ≥ sign + 17 digits + point + precision", w[0], w[1]))
-	} else {
-		c.Unk("C16.R4", "encoding/shp.NewEncoder#width(Float64)", nfd.Pos(), "constant width/precision not found")
-	}
-	// decoder kinds
-	var dfd *ast.FuncDecl
-	for _, fn := range c.P.RepoFuncs() {
-		if c.P.DeclPkg(fn) == a.p && fn.Name() == "setFieldToAttribute" {
-			dfd = c.P.Decl(fn)
-		}
-	}
-	if dfd == nil {
-		// discover: method of Decoder with a switch on Kind()
-		for _, fn := range c.P.RepoFuncs() {
-			if c.P.DeclPkg(fn) != a.p {
-				continue
-			}
-			fd := c.P.Decl(fn)
-			ast.Inspect(fd.Body, func(n ast.Node) bool {
-				if sw, ok := n.(*ast.SwitchStmt); ok && sw.Tag != nil && strings.HasSuffix(src(sw.Tag), ".Kind()") && fn.Name() != "NewEncoder" {
-					dfd = fd
-				}
-				return true
-			})
-		}
-	}
-	if dfd == nil {
-		c.Unk("C16.R4", "encoding/shp#decoder-kinds", token.NoPos, "attribute decoding switch not found")
-		return
-	}
-	dec := map[string]bool{}
-	ast.Inspect(dfd.Body, func(n ast.Node) bool {
-		if cc, ok := n.(*ast.CaseClause); ok {
-			for _, e := range cc.List {
-				if k := kindName(e); k != "" {
-					dec[k] = true
-				}
-			}
-		}
-		return true
-	})
-	var missing []string
-	for k := range want {
-		if !dec[k] {
-			missing = append(missing, k)
-		}
-	}
-	for k := range dec {
-		if _, ok := want[k]; !ok {
-			missing = append(missing, "+"+k)
-		}
-	}
-	sort.Strings(missing)
-	if len(missing) == 0 {
-		c.OK("C16.R4", "encoding/shp#decoder-kinds", dfd.Pos(), "decoder parses exactly {Int, Float64, String}")
-	} else {
-		c.Bad("C16.R4", "encoding/shp#decoder-kinds", dfd.Pos(), "encoder and decoder attribute kinds differ: %v", missing)
-	}
-	_ = constant.MakeInt64
-}
-
-// ---------------------------------------------------------------- R5
 
 func (a *c16) matching() {
 	c := a.c
